@@ -167,6 +167,14 @@ fn t_c05(rng: &mut Rng, g: &mut GenCfg, w: &mut WorldCfg) {
     w.io_noise = rng.chance(1, 2);
     w.ids_every = 6;
     w.oracles = Some(Oracles { data_search: false, ..Oracles::all() });
+    w.substore_phase = rng.chance(1, 3);
+    if w.substore_phase && rng.chance(2, 3) {
+        // (the sub-store phase needs public ids on all annotations, see c05sub.rs)
+        g.pct_ann_id = 100;
+    }
+    if let Ok(f) = std::env::var("VERIF_C05_FLAGS") {
+        w.query_flags = f.split(',').map(|x| x.trim().to_string()).filter(|x| !x.is_empty()).collect();
+    }
 }
 
 fn t_c11(rng: &mut Rng, g: &mut GenCfg, w: &mut WorldCfg) {
@@ -185,6 +193,13 @@ fn t_c15(rng: &mut Rng, g: &mut GenCfg, w: &mut WorldCfg) {
     g.pct_invalid = 0;
     g.restart_formats = vec![Format::Csv];
     g.w[W_RESTART] = *rng.pick(&[3, 6]);
+    if rng.chance(1, 3) {
+        // complex selectors are what the CSV columns have to keep aligned member by member
+        for i in 7..10 {
+            g.wsel[i] = 14;
+        }
+        g.wsel[5] = g.wsel[5].max(6);
+    }
     w.io_noise = rng.chance(1, 2);
     w.ids_every = 6;
     w.oracles = Some(Oracles { data_search: false, ..Oracles::all() });
@@ -202,6 +217,7 @@ fn t_c12(rng: &mut Rng, g: &mut GenCfg, w: &mut WorldCfg) {
     if rng.chance(1, 3) {
         g.restart_formats = vec![*rng.pick(&[Format::JsonInline, Format::Cbor])];
         g.w[W_RESTART] = 2;
+        w.restart_changes_knobs = rng.chance(1, 2);
     }
     w.ids_every = 0;
     w.conversions = true;
